@@ -461,10 +461,43 @@ func runHarness(prog *ssa.Program, fn *ssa.Function, hc *HarnessCfg, known []Kno
 		}(w)
 	}
 	wg.Wait()
+	if len(res.Traces) > 0 {
+		for _, c := range findRaces(res, z3bin) {
+			l := c.label()
+			detail := fmt.Sprintf("%s: %s [locks %s] at %s  ||  %s [locks %s] at %s", c.Cell, rw(c.A.Write), lockKey(c.A), c.WhereA, rw(c.B.Write), lockKey(c.B), c.WhereB)
+			res.Races = append(res.Races, detail)
+			v := &Violation{Label: l, Harness: hc.Name, Detail: detail, Model: map[string]string{"schedule": detail}, Order: []string{"schedule"}}
+			matched := false
+			for _, k := range kf {
+				if k.Status == "fixed" {
+					continue
+				}
+				if k.Label == l || (strings.HasSuffix(k.Label, "*") && strings.HasPrefix(l, strings.TrimSuffix(k.Label, "*"))) {
+					if _, ok := res.KnownHit[k.ID]; !ok {
+						v.Known = k.ID
+						res.KnownHit[k.ID] = v
+					}
+					matched = true
+				}
+			}
+			if !matched {
+				if _, ok := res.Viol[l]; !ok {
+					res.Viol[l] = v
+				}
+			}
+		}
+	}
 	if q.over {
 		res.Incon[fmt.Sprintf("path/time budget exhausted (%d paths explored, %d pending)", res.Paths, len(q.items))]++
 	}
 	return res
+}
+
+func rw(w bool) string {
+	if w {
+		return "write"
+	}
+	return "read"
 }
 
 func (c *HarnessCfg) noLockLeakCheck() bool { return c.Params["allow_lock_leak"] == 1 }
